@@ -87,17 +87,6 @@ def _chain_mask(rng, k):
 def generate(ctx):
     rng = ctx.rng
     dsw = import_dsw()
-    stride = ctx.pick(16, 1)
-    offset = rng.randrange(stride)
-    i = 0
-    for m in range(1, 65536):
-        if m % stride != offset % stride:
-            continue
-        i += 1
-        if not ctx.mine(i):
-            continue
-        for t in (1, 2, 3, 4):
-            yield "graph", dict(k=2, mask="%x" % m, t=t, fam="order2", all_starts=True, n_msgs=ctx.pick(4, 3))
     import json
     import os
     corpus = os.path.join(os.path.dirname(os.path.abspath(__file__)), "corpus_deep_masks.json")
@@ -132,6 +121,17 @@ def generate(ctx):
         k = rng.choice(ctx.pick([4, 5], [4, 5, 6]))
         yield "graph", dict(k=k, filter=dict(run=rng.choice([1, 2, 3]), gc=rng.choice([[0.4, 0.6], [0.25, 0.75], [0.5, 0.5]])),
                             t=rng.choice([1, 2]), fam="localbiofilter", all_starts=False, n_msgs=ctx.pick(6, 8))
+    stride = ctx.pick(16, 1)
+    offset = rng.randrange(stride)
+    i = 0
+    for m in range(1, 65536):
+        if m % stride != offset % stride:
+            continue
+        i += 1
+        if not ctx.mine(i):
+            continue
+        for t in (1, 2, 3, 4):
+            yield "graph", dict(k=2, mask="%x" % m, t=t, fam="order2", all_starts=True, n_msgs=ctx.pick(4, 3))
 
 
 MESSAGE_KINDS = ["random", "random", "zeros", "ones", "leadzero", "trail1", "lead1", "pow2m1", "pow2p1", "len1", "len2", "len3",
